@@ -57,3 +57,39 @@ EXTRA["C24"] = {
             "program's own source path are outside the claim.",
     "design_ref": "DESIGN.md section 6, C24",
 }
+
+EXTRA["C14"] = {
+    "text": "Bounded symbolic model checking of the real is_subtype (garden_type.rs) over ALL well-formed, error-free "
+            "types up to depth 2 (quick) / 3 over a fixed signature (Any; NoValue/Int/String/List/Option/Result with their "
+            "arities; tuples and function types of arity <= 2; type parameters T, U): the function body is executed on "
+            "symbolic type templates (symbolic variant tag, name, arity, children) by merged per-invocation summaries, "
+            "and z3 decides in single queries reflexivity, transitivity, Any top, NoValue bottom, covariance of tuples "
+            "and user-defined types and contravariant-parameter / covariant-result function subtyping (both "
+            "directions, so a dropped comparison is caught). Models are replayed through `garden verif subtype`.",
+    "note": "Trusted: rsx, z3, atom model of type names. Bounded (depth, arity, signature), not a proof; ill-formed "
+            "arities and Error types are outside the property.",
+    "design_ref": "DESIGN.md section 6, C14",
+}
+
+EXTRA["C15"] = {
+    "text": "Bounded symbolic model checking of the real unify / unify_all (type_checker.rs) on type templates of depth 1 "
+            "(quick) / 2: for every feasible path returning a combined type u the real is_subtype is executed on (a,u) "
+            "and (b,u) and z3 decides both hold; unify(t,t) returns Some(t) (structural equality, merged); unify_all "
+            "over 2 (quick) / 3 elements covers every element. Replay through `garden verif unify` / `subtype`.",
+    "note": "Trusted: rsx, z3, structural model of derive(PartialEq) on Type. Bounded, not a proof; the call sites in "
+            "the checker (list/dict literals, if/else, match) are outside the claim.",
+    "design_ref": "DESIGN.md section 6, C15",
+}
+
+EXTRA["C13"] = {
+    "text": "Bounded symbolic model checking of the real `impl PartialEq for Value_` (through the derived equality of "
+            "Value over Rc<Value_>) on two independently built value templates of depth 1 (quick) / 2: symbolic variant "
+            "among the literal-syntax kinds, 64-bit ints, finite doubles, string atoms, lists/tuples/dicts of symbolic "
+            "length <= 2, Bool/Unit/Option/Result values, structs. The function is executed by merged per-invocation "
+            "summaries and z3 decides in single queries that a == b iff structurally equal (bit-equal for floats), and "
+            "reflexivity, symmetry, transitivity. Models are rendered as literals and run on the real binary "
+            "(`a == b`, `a != b`).",
+    "note": "Trusted: rsx, z3, models of rpds::Vector / HashTrieMap equality and of std's Rc<T: Eq> pointer shortcut; "
+            "runtime_type modelled as determined by the type name. Functions, closures and namespaces are outside.",
+    "design_ref": "DESIGN.md section 6, C13",
+}
